@@ -86,8 +86,11 @@ GapBound(lp, sol, ftol, otol) ==
 \* Farkas proof (convention of _computeInfeasBox): for lhs <= Ax <= rhs,
 \*   sum_i (y_i>0 ? y_i*lhs_i : y_i*rhs_i)  >  max over the box of (y^T A) x
 \* with finite sides/bounds wherever the sign of y_i / (y^T A)_j needs them.
+\* (an LP with a side or bound at the WRONG infinity - lhs = +inf, rhs = -inf, lower = +inf, upper = -inf, as the readers
+\*  accept it from a file - is infeasible whatever the vector says: there is nothing to certify)
+WrongInfinity(lp) == (\E i \in 1..NR(lp) : lp.lhs[i] = "inf" \/ lp.rhs[i] = "-inf") \/ (\E j \in 1..NC(lp) : lp.lo[j] = "inf" \/ lp.up[j] = "-inf")
 FarkasFails(lp, y, tol) ==
-   IF Len(y) # NR(lp) THEN {"Shape"} ELSE IF ~NoNan(y) THEN {"NonFinite"} ELSE
+   IF Len(y) # NR(lp) THEN {"Shape"} ELSE IF ~NoNan(y) THEN {"NonFinite"} ELSE IF WrongInfinity(lp) THEN {} ELSE
    LET cols == ColView(lp)
        ya == [j \in 1..NC(lp) |-> BRSpDot(cols[j], y)]
        yamag == [j \in 1..NC(lp) |-> BRSpDotAbs(cols[j], y)]
